@@ -21,7 +21,7 @@ REAL = ["solvor.utils.data_structures.UnionFind", "solvor.utils.data_structures.
 STUB = []
 ASSUMPTIONS = ["indices in range, as the property states", "no fault kinds apply to an in-memory structure without I/O"]
 TIERS = {
-    "quick": {"runs": 24000, "block": 1500, "budget_s": 60},
+    "quick": {"runs": 96000, "block": 3000, "budget_s": 60},
     "thorough": {"runs": 800000, "block": 5000, "budget_s": 900},
 }
 
